@@ -247,6 +247,26 @@ bool World::next_phase() {
 				}
 			}
 			if (mode == "exact") model.check_deadlines(now, true);
+			if (plan.hdr.has("reload") && !reload_checked) {
+				// C20: a fresh daemon was started on a credential-file image; which (user, password) pairs authenticate must be one of the allowed sets
+				reload_checked = true;
+				const JV &rl = *plan.hdr.get("reload");
+				std::map<std::string, bool> ok;
+				if (!clients.empty()) {
+					std::vector<Frame> fr; OutDec d; d.feed(clients[0].out.data(), clients[0].out.size(), fr);
+					for (auto &f : fr) if (f.t == Frame::JSON && f.j.has("id")) ok[f.j.gets("id")] = f.j.has("result");
+				}
+				const JV *probes = rl.get("probes"), *allowed = rl.get("allowed");
+				std::string got; std::vector<bool> v;
+				if (probes) for (size_t i = 0; i < probes->a.size(); i++) { auto it = ok.find("p" + std::to_string(i)); bool b = it != ok.end() && it->second; v.push_back(b); got += b ? '1' : '0'; if (it == ok.end()) got.back() = '?'; }
+				bool match = false; std::string want;
+				if (allowed) for (auto &a : allowed->a) { std::string w; bool m = a.a.size() == v.size(); for (size_t i = 0; i < a.a.size(); i++) { w += a.a[i].b ? '1' : '0'; if (m && a.a[i].b != v[i]) m = false; } if (m) match = true; want += (want.empty() ? "" : " or ") + w; }
+				probe(match ? "reload_ok" : "reload_mismatch");
+				if (!match) {
+					std::string who; if (probes) for (size_t i = 0; i < probes->a.size(); i++) who += (i ? ", " : "") + probes->a[i].gets("user") + "/" + probes->a[i].gets("password").substr(0, 8) + "..";
+					violation("C20", rl.gets("rule", "file-neither-old-nor-new"), rl.gets("what") + ": a fresh daemon started on this file image accepts the (user/password) probes [" + who + "] as " + got + ", allowed: " + want);
+				}
+			}
 			if (end_mode == 1) { phase = 5; continue; }
 			bool serial = plan.hdr.getb("end_close_serial");
 			if (!serial) phase = 2;
@@ -365,9 +385,16 @@ void World::finish(int exit_status) {
 	if (g_arena.exhausted) { res.inconclusive = true; res.inconclusive_why = "arena exhausted"; }
 	if (plan.hdr.getb("want_filelog")) {
 		JV fl = JV::arr();
-		for (auto &e : g_kernel.file_log) { JV o = JV::obj(); o.set("op", JV::str(e.first)); o.set("image", JV::str(hexenc(e.second))); fl.push(o); }
+		for (auto &e : g_kernel.file_log) {
+			JV o = JV::obj(); o.set("op", JV::str(e.op)); o.set("change", JV::num(e.change)); o.set("call", JV::num(e.call));
+			o.set("exists", JV::boolean(e.exists)); o.set("image", JV::str(hexenc(e.image)));
+			o.set("dur_exists", JV::boolean(e.dur_exists)); o.set("dur_image", JV::str(hexenc(e.dur_image)));
+			JV t = JV::arr(); for (auto &x : e.torn) t.push(JV::str(hexenc(x))); o.set("torn", t);
+			fl.push(o);
+		}
 		ex.set("file_log", fl);
-		ex.set("file_final", JV::str(hexenc(g_kernel.file_data)));
+		JV ch = JV::arr(); for (auto &c : pw_changes) ch.push(c); ex.set("changes", ch);
+		ex.set("fs_fault_fired", JV::boolean(g_kernel.fs_fault_fired));
 	}
 	if (plan.hdr.getb("want_out")) {
 		JV outs = JV::arr();
@@ -407,12 +434,14 @@ void World::setup_from_header() {
 	const JV *te = h.get("timerfd_errs"); if (te && te->t == JV::Arr) for (auto &x : te->a) g_kernel.timerfd_create_errs.push_back((int)x.d);
 	g_kernel.fs_fault_at = (int)h.getd("fs_fault_at", -1); g_kernel.fs_fault_kind = h.gets("fs_fault_kind"); g_kernel.fs_fault_arg = (long)h.getd("fs_fault_arg", 0);
 	model.host = this; model.max_matchers = g_variant.max_matchers; model.add_local_only = g_variant.add_local_only; model.default_timeout_s = g_variant.routed_timeout;
+	model.passwd_may_fail = g_kernel.fs_fault_at > 0;
 	model.notify_prop = h.gets("notify_prop", "C01"); model.faulty_add_either = h.gets("relabel") == "C11";
 	model.allow_either_add = true; model.allow_either_route = true; model.route_may_fail = h.getb("route_may_fail");
 	const JV *cr = h.get("creds");
 	if (cr && cr->t == JV::Obj) {
-		g_kernel.file_exists = true; g_kernel.file_path = cr->gets("path", "/etc/cjet/passwd.json");
-		if (cr->has("rawhex")) g_kernel.file_data = hexdec(cr->gets("rawhex"));
+		g_kernel.file_path = cr->gets("path", "/etc/cjet/passwd.json");
+		std::string &file_data = g_kernel.files[g_kernel.file_path];
+		if (cr->has("rawhex")) file_data = hexdec(cr->gets("rawhex"));
 		else {
 			JV users = JV::obj();
 			const JV *us = cr->get("users");
@@ -444,12 +473,14 @@ void World::setup_from_header() {
 				model.users[kv.first] = mu;
 			}
 			JV root = JV::obj(); root.set("users", users);
-			g_kernel.file_data = root.dump();
+			file_data = root.dump();
 			size_t pad = (size_t)cr->getd("pad_to", 0);
-			if (pad > g_kernel.file_data.size()) g_kernel.file_data.insert(g_kernel.file_data.size() - 1, std::string(pad - g_kernel.file_data.size(), ' '));
+			if (pad > file_data.size()) file_data.insert(file_data.size() - 1, std::string(pad - file_data.size(), ' '));
 		}
 		model.have_creds = true;
-		g_kernel.file_log.emplace_back("initial", g_kernel.file_data);
+		g_kernel.dur[g_kernel.file_path] = file_data;
+		{ FileLogEntry e; e.op = "initial"; e.exists = e.dur_exists = true; e.image = e.dur_image = file_data; g_kernel.file_log.push_back(e); }
+		if (cr->getb("absent")) { g_kernel.files.erase(g_kernel.file_path); g_kernel.dur.erase(g_kernel.file_path); }
 	}
 }
 
@@ -472,6 +503,7 @@ extern "C" int cjet_main(int argc, char **argv);
 	W->probe(std::string("main_returned:") + std::to_string(rc));
 	std::string expect_exit = p.hdr.gets("expect_exit", "ok");
 	if (!W->sigterm_sent) {
+		if (p.hdr.has("reload") && !W->started) W->violation("C20", "file-not-loadable", p.hdr.get("reload")->gets("what") + ": a fresh daemon cannot start on this file image (exit " + std::to_string(rc) + "); last log: " + (W->logs.empty() ? std::string("-") : W->logs.back()));
 		if (expect_exit == "fail" || expect_exit == "any") {
 			if (rc == 0 && expect_exit == "fail") W->violation(p.hdr.gets("canary_prop", "C07"), "startup-failure-ignored", "main() returned success although start-up could not complete");
 			W->check_exit(); W->finish(rc); W->bail();
